@@ -58,7 +58,8 @@ Definition run_pydantic (fields:list (string * annot)) (vals:list (string*value)
 Definition assign_field (c:ctx) (name:string) (a:annot) (x:tensor) : dres ctx := validate_field c name a x.
 
 (* __get_pydantic_core_schema__ at class definition: for a numpy array type that names its scalar types
-   (npt.NDArray[np.float32], npt.NDArray[np.int32 | np.int64]; a bare np.ndarray / NDArray[Any] names none) the tensor class
+   (npt.NDArray[np.float32], npt.NDArray[np.int32 | np.int64]; a bare np.ndarray names none; typing.Any and abstract scalar
+   types such as np.floating[Any] are scalar types that are in no table: the `KOther` kind) the tensor class
    refuses, with the dtype error, as soon as one of them is not in its DTYPES:
    `self.DTYPES and any(dtype not in self.DTYPES for dtype in dtypes)` *)
 Definition class_def_refused (dtypes:list dtok) (scalars:list adtype) : bool :=
